@@ -478,3 +478,23 @@ package metrics
 //@   loop 3:
 //@     invariant true
 //@ end
+
+// C10 (restart replays the segment metadata whose append had completed): the
+// metadata WAL is REWRITTEN as a whole on every tick (Wal.Write replaces the
+// file), so the snapshot handed to it holds one entry for EVERY open metrics
+// segment — an idle segment included: leaving it out erases the entry appended
+// for it on earlier ticks.  Ghost mentrySegs: open segments at this tick.
+//@ ghostdecl mentrySegs int
+//@ func timeBasedMetaEntryWalFlush
+//@   props C10
+//@   assumecalleerequires
+//@   ghostinit ghost(0, "mentrySegs") == 0
+//@   site callret GetAllMetricsSegments #1:
+//@     ghostset ghost(0, "mentrySegs") = len(result)
+//@   loop 1:
+//@     invariant true
+//@   loop 2:
+//@     invariant [one-entry-per-open-segment-so-far] len(allMetaEntries) == rangeindex + 1 && rangeindex + 1 <= ghost(0, "mentrySegs")
+//@   site call metricsMEntryWalState.wal.Write #1:
+//@     assert [the-snapshot-holds-an-entry-for-every-open-segment] len(allMetaEntries) == ghost(0, "mentrySegs")
+//@ end
